@@ -233,12 +233,14 @@ def rule_q1_clear(ctx, facts):
     if len(acs) != 1:
         ctx.fail_closed("Q1: expected one add_count call in clear, found %d" % len(acs))
         return
-    dl = op_root(acs[0].args[1])
     fl = flow(cl)
-    D = None
-    for l in fl.copies_of(dl):
-        if cl.local_name(l):
-            D = l
+    # the delta is `s * D` for one tally local D (s = 1: `delta -= 1` per entry; s = -1: a positive tally negated at the call)
+    F = ev.operand(acs[0].args[1])
+    D = sgn = None
+    if F is not TOP and F.c == 0 and len(F.terms) == 1:
+        (sym, k), = F.terms.items()
+        if k in (1, -1) and isinstance(sym, tuple) and sym[0] in ("phi", "local") and isinstance(sym[1], int):
+            D, sgn = sym[1], k
     if D is None:
         ctx.inst("Q1", cl, "clear hands its delta to add_count", acs[0].span, False, "the delta passed to add_count is not a local counter")
         return
@@ -246,17 +248,56 @@ def rule_q1_clear(ctx, facts):
     ok_defs = True
     all_loops = [loop_blocks(cl, be) for be in back_edges(cl)]
     resets = []
-    for pt, f in ev.def_forms(D):
-        if f is TOP:
-            ok_defs = False
-        elif f.is_const() and f.c == 0:
-            if any(pt[0] in L for L in all_loops):
-                resets.append(pt)   # the tally is reset while the walk is in progress: removals counted so far are forgotten
-            continue
-        elif f == Aff.sym(("phi", D)) + Aff.const(-1):
-            decs.append(pt)
-        else:
-            ok_defs = False
+    lost = []
+
+    def tally(T, unit, top):
+        """definitions of a tally: 0, `T += unit` (one entry), or `T += k * E` for a sub-tally E (a per-bin count handed back by a walk)"""
+        nonlocal ok_defs
+        zero, units, adds = [], [], []
+        for pt, f in ev.def_forms(T):
+            if f is TOP:
+                ok_defs = False
+                continue
+            if f.is_const() and f.c == 0:
+                zero.append(pt)
+                continue
+            g = f - Aff.sym(("phi", T))
+            if g.is_const() and g.c == unit:
+                units.append(pt)
+            elif g.c == 0 and len(g.terms) == 1:
+                (sym, k), = g.terms.items()
+                if isinstance(sym, tuple) and sym[0] in ("phi", "local") and isinstance(sym[1], int) and sym[1] != T and k in (1, -1):
+                    adds.append((pt, sym[1], unit * k))
+                else:
+                    ok_defs = False
+            else:
+                ok_defs = False
+        decs.extend(units)
+        own = [L for L in all_loops if any(u[0] in L for u in units)]
+        for z in zero:
+            if top and any(z[0] in L for L in all_loops):
+                resets.append(z)     # the tally is reset while the walk is in progress: removals counted so far are forgotten
+            elif not top and own and z[0] in min(own, key=len):
+                resets.append(z)
+        for pt, E, u in adds:
+            if E in seen_t:
+                ok_defs = False
+                continue
+            seen_t.add(E)
+            ez, eu = tally(E, u, False)
+            # what the walk counted reaches the total: from a count of E, the next reset of E and the add_count call are only reached
+            # through an addition of E into its parent
+            into = {p for p, e, _ in adds if e == E}
+            for up in eu:
+                r = reach(cl, after(cl, up, label="normal"), avoid=into)
+                if acs[0].point in r or any(z in r for z in ez):
+                    lost.append(up)
+        return zero, units
+    seen_t = {D}
+    tally(D, -sgn, True)
+    if lost:
+        ctx.inst("Q1", cl, "per-bin count reaches the total", cl.span_at(lost[0]), False,
+                 "the entries counted at %s are not added to the total on every path to add_count" % cl.span_at(lost[0]))
     ctx.inst("Q1", cl, "delta is 0 minus one per entry", cl.span_at(resets[0]) if resets else acs[0].span, ok_defs and len(decs) >= 2 and not resets,
              "delta starts at 0 before the walk and only ever decrements by one (%d sites)" % len(decs) if ok_defs and decs and not resets else
              ("the removal tally is reset to 0 inside the walk at %s: entries already removed (e.g. before following a forwarding marker) are never "
@@ -632,6 +673,33 @@ def rule_q5(ctx, facts):
     forms = ev.def_forms(0)
     ok = bool(loads) and bool(forms)
     why = []
+
+    def is_counter(op):
+        g = ev.operand(op)
+        return g is not TOP and any(g == Aff.sym(("call", l.b)) for l in loads)
+
+    def clamped(f):
+        """library spellings of `if n < 0 { 0 } else { n as usize }`: usize::try_from(n).unwrap_or(0) / n.try_into().unwrap_or_default()
+        / n.max(0) as usize"""
+        if f.c != 0 or len(f.terms) != 1:
+            return False
+        (sym, k), = f.terms.items()
+        if k != 1 or sym[0] != "call":
+            return False
+        c = b.call_at(sym[1])
+        if c is None:
+            return False
+        s = callee_str(c)
+        from .affine import const_val
+        if s.endswith(("Result::unwrap_or", "Option::unwrap_or", "Result::unwrap_or_default", "Option::unwrap_or_default")):
+            if s.endswith("unwrap_or") and not (len(c.args) == 2 and const_val(b, c.args[1]) == 0):
+                return False
+            inner = [x for x in flow(b).call_roots(op_root(c.args[0])) if x is not None]
+            return len(inner) == 1 and callee_str(inner[0]).rsplit("::", 1)[-1] in ("try_from", "try_into") and \
+                "Result<usize," in str(b.ty(op_root(c.args[0])).get("s", "")) and is_counter(inner[0].args[0])
+        if s.endswith(("cmp::Ord::max", "cmp::max")) and len(c.args) == 2:
+            return (is_counter(c.args[0]) and const_val(b, c.args[1]) == 0) or (is_counter(c.args[1]) and const_val(b, c.args[0]) == 0)
+        return False
     for pt, f in forms:
         if f is TOP:
             ok = False
@@ -647,7 +715,7 @@ def rule_q5(ctx, facts):
                 if not g:
                     ok = False
                     why.append("returns 0 on a path where the counter was not seen to be <= 0")
-        elif not any(f == Aff.sym(("call", l.b)) for l in loads):
+        elif not any(f == Aff.sym(("call", l.b)) for l in loads) and not clamped(f):
             ok = False
             why.append("returns %s, not the counter" % f.show(b))
     ctx.inst("Q5", b, "len() is the counter", b.span, ok, "returns count.load(), 0 when negative" if ok else "; ".join(why) or "no load of `count`")
@@ -670,6 +738,10 @@ def rule_q5(ctx, facts):
 
 
 def run(ctx, facts):
+    ctx.rule("Q8", "iteration visits every node of a bin: NodeIter::next yields the successor of the last node whenever the link is non-null "
+                   "(rule T5 of C07) -- otherwise iteration yields fewer keys than len() counts and lookups find", floor=1)
+    from .rules_c07 import rule_t5
+    rule_t5(ctx, facts, rule="Q8")
     ctx.rule("Q7", "lock -> re-validate the head -> only then link / unlink / count (rule L1 of C01): a removal made on a bin that a resize has "
                    "already split is counted but its copy survives in the new table", floor=11)
     from .rules_c01 import rule_l1
